@@ -18,6 +18,7 @@
 import errno
 import json
 import os
+import re
 import sqlite3
 import sys
 from contextlib import suppress
@@ -277,18 +278,18 @@ class CylcWorkflowDBChecker:
         # (Outputs and flow_nums are serialised).
         if task:
             if '*' in task:
-                # Replace Cylc ID wildcard with Sqlite query wildcard.
-                task = task.replace('*', '%')
-                stmt_wheres.append("name like ?")
+                # Match the Cylc ID wildcard with a (case-sensitive) glob.
+                task = self._sqlite_glob(task)
+                stmt_wheres.append("name GLOB ?")
             else:
                 stmt_wheres.append("name==?")
             stmt_args.append(task)
 
         if cycle:
             if '*' in cycle:
-                # Replace Cylc ID wildcard with Sqlite query wildcard.
-                cycle = cycle.replace('*', '%')
-                stmt_wheres.append("cycle like ?")
+                # Match the Cylc ID wildcard with a (case-sensitive) glob.
+                cycle = self._sqlite_glob(cycle)
+                stmt_wheres.append("cycle GLOB ?")
             else:
                 stmt_wheres.append("cycle==?")
             stmt_args.append(cycle)
@@ -349,6 +350,25 @@ class CylcWorkflowDBChecker:
                 results.append(row[:2] + [str(outputs)] + row[3:])
 
         return results
+
+    @staticmethod
+    def _sqlite_glob(pattern: str) -> str:
+        """Convert a Cylc ID pattern into an Sqlite GLOB pattern.
+
+        Only "*" is a wildcard in Cylc IDs here, all other characters must
+        match literally (and case-sensitively) so the other GLOB special
+        characters ("?" and "[") are escaped. Note "LIKE" is not suitable:
+        it is case-insensitive and treats "_" and "%" as wildcards, both of
+        which are valid in task names.
+
+        Examples:
+            >>> this = CylcWorkflowDBChecker._sqlite_glob
+            >>> this('foo_*')
+            'foo_*'
+            >>> this('a?[b]*')
+            'a[?][[]b]*'
+        """
+        return re.sub(r'([?\[])', r'[\1]', pattern)
 
     @staticmethod
     def _selector_in_outputs(selector: str, outputs: Iterable[str]) -> bool:
